@@ -1,6 +1,6 @@
 use std::collections::{HashMap, HashSet};
 use std::iter::FromIterator;
-use std::io::{BufReader, BufRead};
+use std::io::BufReader;
 use std::fs::File;
 use std::sync::atomic::{AtomicBool, Ordering};
 use std::sync::Arc;
@@ -9,6 +9,7 @@ use crate::data_model::{Row, TableDefinition};
 use crate::execution::{ColumnProvider, ExecutionError, ExecutionResult, ResultRow};
 use crate::execution::column_providers::HashMapColumnProvider;
 use crate::execution::execution_engine::{ExecutionEngine, ExecutionConfig, ExecutionOutput};
+use crate::helpers::lossy_lines;
 use crate::model::{JoinClause, Value, SelectStatement, ExpressionTree, Statement};
 use crate::Tables;
 
@@ -53,7 +54,7 @@ impl JoinedTableData {
         let joined_file = File::open(&join.joined_filename)
             .map_err(|err| ExecutionError::FailOpenFile(format!("{}", err)))?;
 
-        for (line_number, line) in BufReader::new(joined_file).lines().enumerate() {
+        for (line_number, line) in lossy_lines(BufReader::new(joined_file)).enumerate() {
             #[cfg(feature="verif_hooks")]
             crate::verif_hooks::join_line(line_number);
 
